@@ -220,6 +220,12 @@ namespace hist
         // capacity figures; meaning is family specific (see runner)
         virtual void caps(std::vector<size_t>& out, size_t for_size) = 0;
 
+        // guarded hook: structural self check of the free list serving `size` (nullptr = fine)
+        virtual const char* walk(size_t /*size*/, size_t& reachable)
+        {
+            reachable = 0;
+            return nullptr;
+        }
         virtual int  take_marker()
         {
             return -1;
